@@ -24,7 +24,7 @@ GNext == \/ Client /\ UNCHANGED hist
 GSpec == GInit /\ [][GNext]_gvars
 
 Emit == Done => PrintT(<<"SCN", ToJson([cf |-> cf, script |-> hist, result |-> result, rsize |-> retD.size,
-                                         minviol |-> minViol, mounted |-> mounted])>>)
+                                         minviol |-> minViol, mounted |-> mounted, retry |-> HttpRetries])>>)
 
 \* every behaviour of a small space: one destination style, no faults, all partial acceptances
 GenCoreConfs == Reg(0..5, 1..3, {-1}, {<<0, FALSE>>}, {TRUE}, {"none"}, {"else"}, {"query"})
@@ -35,6 +35,11 @@ GenDeclConfs == Reg({0, 1, 3}, {2}, {-1, 2}, {<<0, FALSE>>, <<2, TRUE>>}, BOOLEA
 \* the digest of the stream, or the digest of the prefix that has the declared size
 GenSizeConfs == Reg(2..5, 1..3, {-1, 2}, {<<0, FALSE>>}, BOOLEAN,
                     {"sizeonlyplus", "sizeonlyminus", "prefix", "sizeplus", "sizeminus"}, {"else"}, {"query"})
+\* minimum chunk length announced (enforced or not) against every chunk setting, on the plain POST
+\* and on the mount reply, direct chunked upload and fall-back; no partial acceptance, no faults
+GenMinConfs == Reg(0..4, 1..3, {-1, 2}, {<<2, TRUE>>, <<3, TRUE>>, <<3, FALSE>>}, {TRUE}, {"none", "right"}, {"else"}, {"query"})
+\* the three fault free, partial free breadth first spaces in one run
+GenBreadthConfs == GenDeclConfs \cup GenSizeConfs \cup GenMinConfs
 \* the large space for random behaviours
 GenConfs == Reg(0..7, 1..3, {-1, 2, 4}, MinsT, BOOLEAN, Decls, {"else", "repo"}, {"plain", "query", "move"})
             \cup Oci(0..4, Decls)
